@@ -52,10 +52,10 @@ with brk_block (f : flag) (k : nat) (b : block) : block * nat * bool :=
 with brk_blocks (f : flag) (k : nat) (h : blocks) : blocks * nat * bool :=
   match h with
   | HNil => (HNil, k, false)
-  | HCons b r =>
+  | HCons a b r =>
       let '(b', k1, u1) := brk_block f k b in
       let '(r', k2, u2) := brk_blocks f k1 r in
-      (HCons b' r', k2, u1 || u2)
+      (HCons a b' r', k2, u1 || u2)
   end.
 
 (* ---- continue_statements.ContinueCanonicalizationTransformer -------------- *)
@@ -100,10 +100,10 @@ with cont_block (c : flag) (k : nat) (u : bool) (cur : bool) (b : block) : block
 with cont_blocks (c : flag) (k : nat) (u : bool) (h : blocks) : blocks * nat * bool :=
   match h with
   | HNil => (HNil, k, false)
-  | HCons b r =>
+  | HCons a b r =>
       let '(b', k1, h1) := cont_block c k u false b in
       let '(r', k2, h2) := cont_blocks c k1 (u || h1) r in
-      (HCons b' r', k2, h1 || h2)
+      (HCons a b' r', k2, h1 || h2)
   end.
 
 (* ---- return_statements.ConditionalReturnRewriter ---------------------------- *)
@@ -144,13 +144,13 @@ with crr_block (b : block) : block * bool :=
        end, d1 || d2)
   end
 with crr_blocks (h : blocks) : blocks :=
-  match h with HNil => HNil | HCons b r => HCons (fst (crr_block b)) (crr_blocks r) end.
+  match h with HNil => HNil | HCons a b r => HCons a (fst (crr_block b)) (crr_blocks r) end.
 
 (* ---- return_statements.ReturnStatementsTransformer -------------------------- *)
 Definition rflag : flag := 2.       (* do_return *)
 (* `try: do_return = True; retval_ = <value> / except: do_return = False; raise` *)
 Definition lowered_return (l : label) : stmt :=
-  STry (BCons (SSet rflag true) (one (SAtom l))) (HCons (BCons (SSet rflag false) (one (SRaise 0))) HNil) BNil BNil.
+  STry (BCons (SSet rflag true) (one (SAtom l))) (HCons true (BCons (SSet rflag false) (one (SRaise 0))) HNil) BNil BNil.
 
 (* used: return_used of the enclosing block so far (decides whether loop tests get `not do_return and`);
    result (replacement, hit) where hit = a return was lowered inside (create_guard_next / return_used) *)
@@ -189,8 +189,8 @@ with ret_block (cur used : bool) (b : block) : block * bool :=
 with ret_blocks (h : blocks) : blocks * bool :=
   match h with
   | HNil => (HNil, false)
-  | HCons b r =>
+  | HCons a b r =>
       let '(b', h1) := ret_block false false b in
       let '(r', h2) := ret_blocks r in
-      (HCons b' r', h1 || h2)
+      (HCons a b' r', h1 || h2)
   end.
